@@ -596,3 +596,53 @@ def parse_bounds(text):
     import re
 
     return {m.group(1): [int(x) for x in m.group(2).split(",") if x.strip()] for m in re.finditer(r"(\w+)=\[([^\]]*)\]", text or "")}
+
+
+# ----------------------------------------------------------------------------- predicted leaves (model side of the L3 tie)
+
+ERR_NONE, ERR_REVERT, ERR_EVM, ERR_FAIL, ERR_HALMOS = 0, 1, 2, 3, 4
+
+
+def action_leaf(a):
+    """-> (err kind, data bytes | 'sym') of the path ending with this action"""
+    k = a[0]
+    if k == "panic":
+        return ERR_REVERT, l3.PANIC_SELECTOR.to_bytes(4, "big") + a[1].to_bytes(32, "big")
+    if k == "panic_sym":
+        return ERR_REVERT, "sym"
+    if k == "panic_len":
+        return ERR_REVERT, (l3.PANIC_SELECTOR.to_bytes(4, "big") + a[2].to_bytes(32, "big") + b"\0" * 64)[:a[1]]
+    if k == "error_sel":
+        return ERR_REVERT, a[1].to_bytes(4, "big") + a[2].to_bytes(32, "big")
+    if k == "fail":
+        return ERR_FAIL, b""
+    if k == "revert":
+        return ERR_REVERT, b""
+    if k == "invalid":
+        return ERR_EVM, b""
+    if k == "stop":
+        return ERR_NONE, b""
+    raise ValueError(a)
+
+
+def clause_feasibility(test, bounds, storage, timeout_ms=3000):
+    """for each clause (and the final STOP): is `no earlier clause fires and this one does` satisfiable
+    under the length bounds?  -> list of 'sat' | 'unsat' | 'unknown' (len = clauses + 1)"""
+    import z3
+
+    vs = z3_vars(test, bounds)
+    lens = []
+    for i, t in enumerate(test["params"]):
+        if l3.is_dynamic(t):
+            lens.append(z3.Or([vs[("len", i)] == z3.BitVecVal(n, 256) for n in bounds[i]]))
+    out, earlier = [], []
+    for cond, _ in list(test["clauses"]) + [(None, None)]:
+        s = z3.Solver()
+        s.set("timeout", timeout_ms)
+        s.add(*lens, *[z3.Not(x) for x in earlier])
+        if cond is not None:
+            g = z3_cond(cond, vs, storage)
+            s.add(g)
+            earlier.append(g)
+        out.append(str(s.check()))
+    return out
